@@ -334,7 +334,9 @@ func (t *Transport) handleLinkLost(addrStr string, lnk *Link) {
 	}
 	t.mtx.Unlock()
 
-	if t.handler != nil && rel {
+	// the link was announced as established: always announce the loss,
+	// also when a newer session took over its address in the meantime.
+	if t.handler != nil {
 		t.handler.HandleLinkLost(lnk)
 	}
 }
